@@ -14,10 +14,11 @@
 import json, os, shutil, subprocess, sys, time
 
 wt, k, prop = sys.argv[1], sys.argv[2], sys.argv[3]
+label = sys.argv[4] if len(sys.argv) > 4 else f'{prop}-{k}'
 seed = os.path.join(wt, 'seeded', k)
 patch = os.path.join(seed, 'patch.diff')
-out_dir = f'/verif/seeded/{prop}-{k}'
-S = '/tmp/seval'
+out_dir = f'/verif/seeded/{label}'
+S = os.environ.get('SEVAL_DIR', '/tmp/seval')
 env = dict(os.environ, CARGO_NET_OFFLINE='true', PATH='/tmp/tools:' + os.environ['PATH'], MINILUA_COMPAT_5_2='1')
 
 def sh(cmd, cwd=None, timeout=3600, env=env):
@@ -87,7 +88,7 @@ for c in checks:
 meta['checks'] = results
 meta['caught_by'] = [c for c in checks if results[c]['violation']]
 meta['machinery_exits'] = [c for c in checks if results[c]['exit'] not in (0, 1)]
-sh('pkill -9 -f "seval/target/release/syltmc c07-worker"')
+sh(f'pkill -9 -f "{S}/target/release/syltmc c07-worker"')
 
 # ---- 3. keep it -----------------------------------------------------------------------------------
 os.makedirs(out_dir, exist_ok=True)
